@@ -899,6 +899,60 @@ def rule_D(ck, witness_units):
         ck.floors['D.must-compile'] = FLOORS[ck.tier]['D']
 
 
+def rule_F(ck, T):
+    """F.mpi-relaxation-operand: the compile-time distributed relaxation amgcl::mpi::relaxation::X<Backend> says from which operand the serial
+    relaxation X is built: Base(*A.local(), ...) (the local diagonal block) or Base(A, ...) (the distributed matrix: chebyshev needs the
+    global spectral radius).  The run-time wrapper runtime::mpi::relaxation::wrapper constructs amgcl::relaxation::X through
+    call_constructor<X>(operand, ...); for every X the operand kind is the one of the compile-time class."""
+    ck.rule('F.mpi-relaxation-operand', 'runtime::mpi::relaxation::wrapper builds every serial relaxation X from the same operand (distributed matrix / local block) as the '
+                                        'compile-time class mpi::relaxation::X does (cross-class sibling agreement on the instantiated constructors)', 7)
+    src = os.path.join(T, 'mpi_relax.cpp')
+    if not os.path.exists(src):
+        ck.brk('tus/mpi_relax.cpp is missing')
+        return
+    u = ir.run_units([dict(name='mpi_relax', src=src, mpi=True)], 'C14r')['mpi_relax']
+    ct = {}
+    for f in u.funcs:
+        if f.cls and f.cls.startswith('amgcl::mpi::relaxation::') and f.j.get('ctor') and f.body is not None and f.params:
+            for ini in f.j.get('inits', []):
+                if 'base' not in ini or ini.get('e') is None:
+                    continue
+                e = unwrap(ini['e'])
+                args = e.get('a', []) if e is not None else []
+                if not args:
+                    continue
+                a0 = unwrap(args[0])
+                kind = None
+                if a0 is not None and a0['k'] == 'ref' and a0['d'] == f.params[0]:
+                    kind = 'distributed'
+                elif a0 is not None and 'local()' in show(a0) and any(x['k'] == 'ref' and x['d'] == f.params[0] for x in walk(a0)):
+                    kind = 'local'
+                ct[f.cls.split('::')[-1]] = (kind, f.where())
+    rt = {}
+    for f in u.funcs:
+        if f.cls == 'amgcl::runtime::mpi::relaxation::wrapper' and f.j.get('ctor') and f.body is not None:
+            for n in f.nodes.values():
+                if n['k'] == 'call' and 'call_constructor' in (n.get('f') or '') and n.get('a'):
+                    g = u.by_id.get(n.get('fd'))
+                    m = re.search(r'call_constructor<amgcl::relaxation::(\w+), (.*)>', g.full if g is not None else '')
+                    if not m:
+                        continue
+                    a0 = unwrap(n['a'][0])
+                    kind = 'distributed' if (a0 is not None and a0['k'] == 'ref' and a0['d'] == f.params[0]) else ('local' if a0 is not None and 'local()' in show(a0) else None)
+                    if ('distributed_matrix' in m.group(2)) != (kind == 'distributed'):
+                        kind = None
+                    rt[m.group(1)] = (kind, f.where(n))
+    for name, (k_rt, where) in sorted(rt.items()):
+        if name not in ct:
+            ck.ob('F.mpi-relaxation-operand', 'runtime::mpi::relaxation::wrapper|' + name, where, False, 'no compile-time class amgcl::mpi::relaxation::%s instantiated to compare with' % name)
+            continue
+        k_ct, w_ct = ct[name]
+        ok = k_rt is not None and k_rt == k_ct
+        ck.ob('F.mpi-relaxation-operand', 'runtime::mpi::relaxation::wrapper|' + name, where, ok, '' if ok else
+              'the run-time wrapper builds relaxation::%s from the %s operand at %s, the compile-time class mpi::relaxation::%s (%s) builds it from the %s one: '
+              'the run-time configuration is not the compile-time one' % (name, k_rt, where, name, w_ct, k_ct))
+
+
 def main(tier):
     ck = Check('C14', tier, 'C14: run-time configuration equals compile-time configuration.')
     T = os.path.join(ir.VERIF, 'tus')
@@ -918,6 +972,8 @@ def main(tier):
     if os.path.exists(os.path.join(T, 'params_witness_mpi.cpp')):
         wit.append((os.path.join(T, 'params_witness_mpi.cpp'), True))
     rule_D(ck, wit)
+    if os.path.exists(os.path.join(T, 'all_headers_mpi.cpp')):
+        rule_F(ck, T)
     ck.assumptions += ['Boost.PropertyTree get/put/get_child/add_child semantics',
                        'bitwise equality of results is not decided; it follows from identical classes and parameters only for deterministic components']
     return ck.finish()
